@@ -366,10 +366,11 @@ def main(prop: str, tier: str = "quick") -> int:
                 json.dump({"property": prop, "obligation": r["target"] + "/bounded_standin", "contract": r["contract"],
                            "why_bounded": r["unsupported"], "failing_input": bs["failing_input"], "observed": bs.get("observed"),
                            "replayed_on_real_code": True, "bound": bs.get("bound")}, fh, indent=1, default=str)
-            lines.append(f"VIOLATION property={prop} replay={rel}")
-            print(f"  bounded stand-in of {r['target']} (function left the verifiable subset: {r['unsupported']}) found a failing input")
+            if f"VIOLATION property={prop} replay={rel}" not in lines:  # (one contract may be listed under several case splits)
+                lines.append(f"VIOLATION property={prop} replay={rel}")
+                print(f"  bounded stand-in of {r['target']} (function left the verifiable subset: {r['unsupported']}) found a failing input")
+                n_viol += 1
             exit_code = 1
-            n_viol += 1
             bounded_results.append({"contract": r["contract"] + ".bounded_standin", "bounded_result": {k: v for k, v in bs.items() if k != "failing_input"}})
             continue
         if bs:
